@@ -1107,3 +1107,22 @@ Proof.
   destruct (dead_step k c _ (Accept auths) Q HJ2) as [[n Hn]|Hs]; [discriminate|].
   rewrite He' in Hok. unfold ev_of in Hok. cbn [ev_out] in Hok. rewrite Hs in Hok. discriminate.
 Qed.
+
+(* ------------------------------------------------------------------ *)
+(* a replaced offer can never be accepted: whoever accepts is the addressee of the LATEST offer *)
+Theorem replaced_offer_dead : forall k c start h0 cs g1 off g2 e h2 new lu au auths,
+  1 <= min_temp_ttl c ->
+  history k c (init start h0) cs = g1 ++ off :: g2 ++ e :: h2 ->
+  ev_call off = Offer new lu au -> offer_ok off = true -> no_oca g2 ->
+  ev_call e = Accept auths -> is_ok (ev_out e) = true ->
+  has_auth auths new = true /\ ev_after e = Some new.
+Proof.
+  intros k c start h0 cs g1 off g2 e h2 new lu au auths Hmin Hh Hco Hoo Hq Hce Hok.
+  replace (g1 ++ off :: g2 ++ e :: h2) with ((g1 ++ off :: g2) ++ e :: h2) in Hh
+    by (rewrite <- app_assoc; reflexivity).
+  destruct (except_known k c start h0 cs _ e h2 auths Hmin Hh Hce Hok)
+    as [g1' [off' [g2' [new' [lu' [au' [G1 [G2 [G3 [G4 [_ [G6 [G7 _]]]]]]]]]]]]].
+  assert (L1 : latest (g1 ++ off :: g2) = Some off) by (apply latest_of_decomp; assumption).
+  assert (L2 : latest (g1 ++ off :: g2) = Some off') by (rewrite G1; apply latest_of_decomp; assumption).
+  rewrite L1 in L2. inversion L2; subst off'. rewrite Hco in G2. inversion G2; subst. auto.
+Qed.
